@@ -111,6 +111,7 @@ type Worker struct {
 	fnInfo   map[*ssa.Function]*fnInfo
 	modelHits int
 	accesses  map[string]*accessRec
+	lockEdges map[string]*lockEdge
 	harness  *ssa.Function
 }
 
@@ -209,6 +210,8 @@ type RunResult struct {
 	SolverErrs []string
 	Accesses   []*accessRec
 	Races      []*raceRec
+	LockOrder  []string
+	LockEdges  int
 }
 
 func Explore(prog *ssa.Program, harness *ssa.Function, cfg *Config, redirect map[string]*ssa.Function, kfOpen map[string]bool, initPkgs map[string]bool) *RunResult {
@@ -231,7 +234,7 @@ func Explore(prog *ssa.Program, harness *ssa.Function, cfg *Config, redirect map
 		}
 		w := &Worker{id: i, cfg: cfg, ex: ex, prog: prog, ts: ts, solver: s,
 			stubsHit: map[string]int{}, fnsHit: map[*ssa.Function]int{}, redirect: redirect,
-			kfOpen: kfOpen, initPkgs: initPkgs, accesses: map[string]*accessRec{}, extCache: map[*ssa.Function]extFn{}, fnInfo: map[*ssa.Function]*fnInfo{}, harness: harness}
+			kfOpen: kfOpen, initPkgs: initPkgs, accesses: map[string]*accessRec{}, lockEdges: map[string]*lockEdge{}, extCache: map[*ssa.Function]extFn{}, fnInfo: map[*ssa.Function]*fnInfo{}, harness: harness}
 		workers[i] = w
 		wg.Add(1)
 		go func() {
@@ -307,6 +310,18 @@ func Explore(prog *ssa.Program, harness *ssa.Function, cfg *Config, redirect map
 		rr.Accesses = append(rr.Accesses, accs[k])
 	}
 	rr.Races = eraser(rr.Accesses)
+	var edges []*lockEdge
+	em := map[string]*lockEdge{}
+	for _, w := range workers {
+		for k, e := range w.lockEdges {
+			em[k] = e
+		}
+	}
+	for _, k := range sortedKeys(em) {
+		edges = append(edges, em[k])
+	}
+	rr.LockEdges = len(edges)
+	rr.LockOrder = lockCycles(edges)
 	sort.Slice(rr.Cex, func(i, j int) bool { return rr.Cex[i].Label < rr.Cex[j].Label })
 	rr.WallS = time.Since(t0).Seconds()
 	return rr
